@@ -149,10 +149,22 @@ def r4(ctx):
                     starts[fn.key(fn.nodes[l]['cond']) if 'cond' in fn.nodes[l] else ''] = fn.val(dd.get('init'))
             ok = ok and starts.get('(%s < %s.size())' % (m1.group(2), idv)) == 2 and starts.get('(%s < %s)' % (m2.group(3), addv)) == 0
             rets = [r for r in fn.all('ReturnStmt') if fn.val(fn.nodes[r].get('val')) not in (0, None)]
-            okb = any('((%s + %s) <= %s.getDataSize())' % (posv, addv, allv) in k and not p for r in rets for k, p in ((a[0], a[1]) for a in fn.atoms(r)))
+            # the buffer all field data was written to has no length byte yet: its size is the calculated one (or the
+            # header was adjusted before getDataSize() is consulted)
+            adj = set(c for c in fn.all('CXXMemberCallExpr') if (fn.nodes[c].get('callee') or '').endswith('::adjustHeader') and
+                      fn.key(fn.nodes[c].get('obj', -1)) == allv)
+            for r in rets:
+                for k, p in ((a[0], a[1]) for a in fn.atoms(r)):
+                    if p:
+                        continue
+                    if '((%s + %s) <= %s.getCalculatedDataSize())' % (posv, addv, allv) in k:
+                        okb = True
+                    if '((%s + %s) <= %s.getDataSize())' % (posv, addv, allv) in k and adj and \
+                            not fn.reaches_point(fn.entry, fn.pos(r), adj):
+                        okb = True
     ctx.ob('C09.R4', fn, fn.body, ok, 'NN of a chained part', 'pushes %s; loops %s' % (keys, loops))
     # the slice must lie inside the written data
-    ctx.ob('C09.R4', fn, fn.body, okb, 'slice bound', 'slice start + length checked against the data size: %s' % okb)
+    ctx.ob('C09.R4', fn, fn.body, okb, 'slice bound', 'slice start + length checked against the size of the data written (not the unset length byte): %s' % okb)
 
 
 def run(ctx):
